@@ -144,6 +144,23 @@ fn run_history(ops: &[Value], tb: &Tables) {
                     respond(json!(["fail", read_result()]));
                 }
             }
+            // ---- stream `emit-concrete` (c19/concrete.rs): config, and whole texts instead of hashes
+            "C" => {
+                let c = pass(&tb.pool[idx(op, 1)]);
+                let ok = ln::load_config(c.ptr, c.len);
+                c.free();
+                respond(json!(["cfg", ok]));
+            }
+            "X" => {
+                if ln::emit_js(idx(op, 1)) {
+                    respond(json!(["jst", read_result()]));
+                } else {
+                    respond(json!(["fail", read_result()]));
+                }
+            }
+            "Y" => {
+                respond(json!(["rest", read_result()]));
+            }
             "F" => {
                 ln::free_task(idx(op, 1));
                 respond(json!(["freed"]));
